@@ -35,7 +35,7 @@ def hap_of(tags):
     return None
 
 
-def build_case(main_lens, confs, name_tag_at, name_tag, unpainted, main_last, hap_pattern=None, singleton_at=None, flip=False, unpainted_tag=None):
+def build_case(main_lens, confs, name_tag_at, name_tag, unpainted, main_last, hap_pattern=None, singleton_at=None, flip=False, unpainted_tag=None, target_at=()):
     """
     returns (inp, pv scaffolds, model) ; every piece is a whole single-contig input scaffold.
     model: list per Pretext scaffold of dict(main=[input names], unlocs=[...], haplotigs=[...], tag=.., hap=..)
@@ -60,6 +60,8 @@ def build_case(main_lens, confs, name_tag_at, name_tag, unpainted, main_last, ha
             base.append(hap)
         if singleton_at is not None and i == singleton_at:
             base.append("Singleton")
+        if i in target_at:
+            base.append("Target")
         if name_tag_at == i or (isinstance(name_tag_at, tuple) and i in name_tag_at):
             base.append(name_tag)
         pieces = []
@@ -294,8 +296,12 @@ class C10(Check):
                     elif (cols[2] == "no") != ("_unloc_" in s.name) or cols[2] not in ("yes", "no"):
                         errs.append(("csv-localised", f"{ln!r}"))
         # name tags and unpainted names, piece by piece (only where a piece is a well-defined set of whole rows)
+        target_seen = False
         for sname, pieces in scaffolds if piece_clause else ():
             tags = {t for p in pieces for t in p[4]}
+            target_seen = target_seen or "Target" in tags
+            if target_seen and "Target" not in tags:
+                continue  # Target mode: this scaffold is contaminant (C09), the naming clauses are about curated assemblies
             ntag = next((t for t in tags if re.fullmatch(r"([A-Z]\d*|[IVX_]+|\d+[A-Z]+)", t)), None)
             for src, _s, _e, _o, pt in pieces:
                 if "Haplotig" in pt:
@@ -411,6 +417,13 @@ class C10(Check):
                                             # the name tag sits on the scaffold that is not painted
                                             inp, scaffolds, _ = build_case(lens, confs, None, None, unp, main_last, unpainted_tag="Z")
                                             self.run_case(inp, scaffolds, prefix, ctx)
+            if block == 0 and n in (2, 3):
+                # Target mode: haplotig pieces in scaffolds with and without the Target tag, before and after the first Target
+                for target_at in [t for k in (1, 2) for t in itertools.combinations(range(n), k)]:
+                    for confs in itertools.product([(0, 0), (0, 1), (1, 1)], repeat=n):
+                        for main_last in (False, True):
+                            inp, scaffolds, _ = build_case((20, 30, 10)[:n], confs, None, None, 0, main_last, target_at=target_at)
+                            self.run_case(inp, scaffolds, "SUPER_", ctx)
             inp, scaffolds, _ = build_case((20,) * n, confs_all[block * 5], None, None, 1, False)
             ctx.sample({"input": pv.jsonable(inp), "pretext": pv.jsonable((1.0, scaffolds)), "prefix": "SUPER_"})
         elif kind == "tagpairs":
@@ -481,6 +494,12 @@ class C10(Check):
                     hp = ("Hap1", "Hap1", "Hap2") if first else ("Hap1", "Hap2", "Hap1")
                     inp, scaffolds, _ = build_case(lens, [(0, 0)] * 3, None, None, 0, False, hap_pattern=hp, singleton_at=0 if first else 2)
                     self.run_case(inp, scaffolds, "SUPER_", ctx, twohap=True)
+                    # the Singleton chromosome has an unloc, listed after or before it in its Pretext scaffold
+                    sat = 0 if first else 2
+                    for main_last in (False, True):
+                        confs = [(1, 0) if i == sat else (0, 0) for i in range(3)]
+                        inp, scaffolds, _ = build_case(lens, confs, None, None, 0, main_last, hap_pattern=hp, singleton_at=sat)
+                        self.run_case(inp, scaffolds, "SUPER_", ctx, twohap=True)
             ctx.sample({"twohap": "Hap1/Hap2 alternating painted scaffolds", "pairs": pairs})
         elif kind == "cut":
             # one input scaffold cut into main + Unloc (and the reverse), sizes on both sides of the neighbours
@@ -567,3 +586,4 @@ CHECK = C10()
 # scope added in later rounds, kept in the evidence text
 CHECK.rule += ' Name-tag pairs where one tag is a prefix of the other (I / I_II, X / X_2 ...); the prefix given to the constructor or assigned afterwards must give the same names; a second request to the same BuildAssembly must repeat the first.'
 CHECK.rule += ' A chromosome name tag (Z) on a Pretext scaffold that is not painted. An assembly that holds chromosomes must be flagged curated (the command line writes its chromosome list only then).'
+CHECK.rule += ' Target mode (haplotig pieces in scaffolds with and without Target, before and after the first Target). A Singleton chromosome with an unloc listed before or after it.'
